@@ -11,6 +11,7 @@ import (
 	"path/filepath"
 	"runtime"
 	"sort"
+	"strconv"
 	"strings"
 	"time"
 )
@@ -122,6 +123,23 @@ func runCheck(id, tier string) int {
 	}
 	pool := NewSolverPool("z3", timeout)
 	defer pool.CloseAll()
+	// cross-solver sampling: z3 5.1 (z3-new) re-decides every 25th path/assertion query in the quick
+	// tier and every 5th in the thorough tier; SYMGO_CROSS=cvc5|z3-new|off and SYMGO_CROSS_EVERY=n override
+	crossKind, crossEvery := "z3-new", 25
+	if tier == "thorough" {
+		crossEvery = 5
+	}
+	if k := os.Getenv("SYMGO_CROSS"); k != "" {
+		crossKind = k
+	}
+	if n, err := strconv.Atoi(os.Getenv("SYMGO_CROSS_EVERY")); err == nil && n > 0 {
+		crossEvery = n
+	}
+	if crossKind != "off" {
+		os.Setenv("SYMGO_DISAGREE_DIR", filepath.Join(vd, "replays", id, "solver-disagreements"))
+		os.RemoveAll(filepath.Join(vd, "replays", id, "solver-disagreements"))
+		pool.EnableCross(crossKind, crossEvery)
+	}
 	workers := runtime.NumCPU()
 	tierN := 0
 	if tier == "thorough" {
@@ -137,6 +155,8 @@ func runCheck(id, tier string) int {
 	var samples []interface{}
 	obligations := map[string]bool{}
 	var replayDirs []string
+	var witnesses []Witness
+	notComparable := 0
 
 	for _, hs := range spec.Harnesses {
 		if hs.Tier != "" && hs.Tier != tier {
@@ -153,6 +173,30 @@ func runCheck(id, tier string) int {
 			if hr == nil {
 				continue
 			}
+		}
+		notComparable += hr.NotComparable
+		if !hr.Stopped {
+			// a spread of the clean paths: at most witnessN per harness, distinct reach signatures first
+			witnessN := 3
+			if tier == "thorough" {
+				witnessN = 24
+			}
+			seen := map[string]bool{}
+			var pick []Witness
+			for pass := 0; pass < 2 && len(pick) < witnessN; pass++ {
+				for _, wt := range hr.Witnesses {
+					sig := strings.Join(wt.Reached, ",")
+					if len(pick) >= witnessN || (pass == 0) == seen[sig] {
+						continue
+					}
+					if pass == 0 {
+						seen[sig] = true
+					}
+					wt.Harness = hs
+					pick = append(pick, wt)
+				}
+			}
+			witnesses = append(witnesses, pick...)
 		}
 		totalPaths += hr.Paths
 		sum := map[string]interface{}{"harness": hr.Name, "paths": hr.Paths, "ssa_steps": hr.Steps, "wall_s": hr.Dur.Seconds(), "path_ends": hr.EndCounts, "reached": hr.Reached}
@@ -271,6 +315,14 @@ func runCheck(id, tier string) int {
 		}
 	}
 
+	// translator validation: path witnesses through the native build
+	var wres *WitnessResult
+	if violations == 0 && os.Getenv("SYMGO_NO_WITNESS") == "" {
+		wres = w.ValidateWitnesses(id, witnesses)
+		for _, d := range wres.Diverged {
+			fmt.Printf("NOTE property=%s witness path not followed natively: %s\n", id, d)
+		}
+	}
 	nq, nsat, nunsat, nunk, sdur := pool.Stats()
 	nq += bmcStats.NQ
 	nsat += bmcStats.NSat
@@ -322,10 +374,35 @@ func runCheck(id, tier string) int {
 		WallS:       time.Since(t0).Seconds(),
 		Violations:  violations,
 	}
+	if pool.Cross != nil {
+		cs := pool.Cross
+		for _, d := range cs.Disagree {
+			inconclusive = append(inconclusive, "solver disagreement: "+d)
+		}
+		ev.Coverage["cross_solver"] = map[string]interface{}{
+			"second_solver": map[string]string{"z3-new": "z3 5.1.0 (z3-new -in)", "cvc5": "cvc5 1.0 (--incremental)"}[cs.Kind],
+			"sampling":      fmt.Sprintf("every %d-th path-feasibility / assertion query of the sequential harnesses", crossEvery),
+			"compared":      cs.Compared, "agreed": cs.Agreed, "second_solver_undecided": cs.Undecided, "disagreements": cs.Disagree,
+		}
+	}
+	if wres != nil && (wres.Tried > 0 || notComparable > 0) {
+		ev.Coverage["translator_validation"] = map[string]interface{}{
+			"paths_not_comparable": notComparable,
+			"not_comparable_why":   "paths through a stubbed library function (the native shim redirects only pike's own functions) or through a harness branch on verifNative()",
+			"what":            "concrete input vectors of explored paths (solver models of the path conditions) run through the natively compiled harness; followed = same reach labels in order, all assumptions and assertions hold, no panic",
+			"witness_paths":   wres.Tried,
+			"followed":        wres.Followed,
+			"diverged":        wres.Diverged,
+			"seconds":         wres.Dur.Seconds(),
+		}
+		ev.Coverage["traces_validated_against_impl"] = wres.Followed + bmcReplayed
+	}
 	if len(spec.BMC) > 0 {
 		ev.Coverage["states"] = bmcStates
 		ev.Coverage["transitions"] = bmcTransitions
-		ev.Coverage["traces_validated_against_impl"] = bmcReplayed
+		if _, ok := ev.Coverage["traces_validated_against_impl"]; !ok {
+			ev.Coverage["traces_validated_against_impl"] = bmcReplayed
+		}
 	}
 	os.MkdirAll(filepath.Join(vd, "evidence"), 0o755)
 	b, _ := json.MarshalIndent(ev, "", " ")
